@@ -265,6 +265,10 @@ func (w *World) buildEffects() *Effects {
 						e.add(s)
 					}
 				case *ssa.Function:
+					// a call of an instantiated generic function is a call of the generic function
+					if o := v.Origin(); o != nil && o.Blocks != nil {
+						v = o
+					}
 					name := funcName(v)
 					if isCollectionsRecv(v) && len(c.Args) > 0 {
 						s := &Site{Fn: fn, Instr: in, Kind: SColl, Method: methodOf(name), Callee: name, Pos: pos}
